@@ -181,7 +181,9 @@ fn align_target(db: &Db, u: &Universe, c: usize, rng: &mut SmallRng) -> Option<(
     for (a, s) in old_only.iter() {
         for b in group(*a) {
             if cur_pos.get(&b).map(|p| p.1) == Some(*s) {
-                return Some(if rng.gen::<u32>() % 2 == 0 { del(*a) } else { set(*a, 1 + (rng.gen::<usize>() % u.nvals) as i64) })
+                // (counting column: the value is a function of the key - value id 1, as in rand_tx)
+                let v = if spec.is_rc() { 1 } else { 1 + (rng.gen::<usize>() % u.nvals) as i64 };
+                return Some(if rng.gen::<u32>() % 2 == 0 { del(*a) } else { set(*a, v) })
             }
         }
     }
